@@ -247,7 +247,7 @@ fn gen_tree(rng: &mut Rng, depth: u64, maxdepth: u64, v: &mut Vec<u64>) {
         v.push(0);
     } else {
         let k = rng.below(4);
-        v.push(1);
+        v.push(if rng.chance(1, 5) { 2 } else { 1 });
         v.push(k);
         for _ in 0..k {
             gen_tree(rng, depth + 1, maxdepth, v);
@@ -310,6 +310,10 @@ pub fn gen(prop: &str, seed: u64, thorough: bool, out: &mut impl Write) {
                     emit(out, &Case::new(fid).prior(4, 0, iflag).args(&[]));
                 }
                 for t in all_trees(if thorough { 4 } else { 3 }) {
+                    emit(out, &Case::new(313).prior(4, 0, iflag).args(&t));
+                }
+                // closures that open an interrupt window (enable ... disable) around a nested call
+                for t in [vec![1u64, 1, 2, 1, 1, 1, 0], vec![1, 2, 0, 2, 2, 1, 1, 0, 0], vec![2, 1, 1, 1, 0], vec![1, 1, 2, 2, 1, 2, 0, 0, 1, 0], vec![1, 1, 1, 1, 2, 1, 1, 1, 0]] {
                     emit(out, &Case::new(313).prior(4, 0, iflag).args(&t));
                 }
             }
@@ -722,6 +726,14 @@ fn spec_tree(it: &mut core::slice::Iter<u64>, iflag: &mut bool, obs: &mut Vec<i1
             for _ in 0..k { spec_tree(it, iflag, obs, evs); }
             if saved { evs.push(2); *iflag = true; }
         }
+        Some(2) => {
+            // a closure that opens an interrupt window and closes it again: it leaves the flag as it found it
+            let k = *it.next().unwrap_or(&0);
+            let was = *iflag;
+            evs.push(2); *iflag = true;
+            for _ in 0..k { spec_tree(it, iflag, obs, evs); }
+            if !was { evs.push(1); *iflag = false; }
+        }
         _ => {}
     }
 }
@@ -739,7 +751,7 @@ fn judge_c17(c: &[u64], raw: &[i128]) -> Verdict {
         313 => {
             let (mut obs, mut evs, mut f) = (vec![], vec![], if0);
             spec_tree(&mut p.args.iter(), &mut f, &mut obs, &mut evs);
-            let depth = p.args.iter().filter(|x| **x == 1).count();
+            let depth = p.args.iter().filter(|x| **x == 1 || **x == 2).count();
             if fin != Some(if0) { return (Some("without_interrupts must leave the flag exactly as it was before the call"), true); }
             if a.result != obs { return (Some("closure must run exactly once per call with the interrupt flag clear"), true); }
             if ops != evs { return (Some("without_interrupts must disable only if enabled and re-enable only if it disabled"), true); }
